@@ -215,6 +215,9 @@ def generic(prop, tier, scens, claimed, rule, sim_len=12, reads_only=False, stra
                 judge(run, prop, strategy, kind, scen, traces, claimed)
     if mechanism:
         buffer_mechanism(run, prop, tier, mechanism)
+    if prop == "C06":
+        from . import chk_contract
+        chk_contract.buffered_histories(run, prop, tier)
     return run.finish()
 
 
